@@ -267,3 +267,4 @@ def run(ctx) -> None:
     ensembler(ctx)
     fullstack(ctx)
     splitter_actor(ctx)
+    shared.argname_scope(ctx, ('forml.evaluation', 'forml.pipeline.ensemble', 'forml.pipeline.payload._split'), floor=2)
